@@ -5,7 +5,7 @@ from fractions import Fraction as F
 
 import numpy as np
 
-from harness.fieldp import red
+from harness.fieldp import red, Unrepresentable
 from harness.proxies import Tape, Boom, TapeMismatch, BOOMS, carries_boom
 
 warnings.filterwarnings("ignore")
@@ -219,7 +219,7 @@ def run(sc, tape_mode="log", script=None, provider=None):
                 ret = fn()
             except Boom:
                 outcome = "exc"
-            except TapeMismatch:
+            except (TapeMismatch, Unrepresentable):
                 raise
             except Exception as e:
                 if carries_boom(e):
